@@ -52,7 +52,7 @@ CoreTokens == Tokens \ ({"-=", "*=", "/=", "%=", "<<=", ">>=", "&=", "|=", "^="}
                               "float", "bool", "0", "//", "/*", "*/"})
 
 \* names and literals used by the grammar's templates and contexts but not enumerated as tokens
-AuxTok == {"y", "s", "b", "a", "t", "r", "c", "it", "u", "m", "w", "n", "p", "q", "g", "e", "z", "h",
+AuxTok == {"y", "s", "b", "a", "t", "r", "c", "it", "u", "m", "w", "ca", "nv", "n", "p", "q", "g", "e", "z", "h",
            "2", "5", "64", "99999999999999999999",
            "\"@valid\"", "\"@invalid\"", "\"@illtyped\"", "\"@missing\"", "\"@dir\"", "\"@binary\"",
            "\"@self\""}
@@ -216,7 +216,8 @@ IterLit == <<"[", "1", "]", "~">>
 \* identifier per type shape (bound as constants or as typed parameters by the contexts below)
 LitLeaves == {<<"1">>, <<"0">>, <<"1.5">>, <<"\"s\"">>, <<"true">>, <<"()">>, <<"[", "]">>,
               FnLit, CellLit, IterLit}
-VarLeaves == {<<v>> : v \in {"x", "y", "s", "b", "a", "t", "r", "f", "c", "it", "u", "m", "w"}}
+\* (ca: a cell holding an array, nv: a parameter of type ! - both found necessary: see the findings)
+VarLeaves == {<<v>> : v \in {"x", "y", "s", "b", "a", "t", "r", "f", "c", "it", "u", "m", "w", "ca", "nv"}}
 ELeaves == {Leaf("E", ts) : ts \in LitLeaves \cup VarLeaves \cup {<<"struct", "{", "}">>}}
 \* reduced leaf set used for the three-child forms in the quick tier
 QLeaves == {Leaf("E", ts) : ts \in {<<"1">>, <<"\"s\"">>, <<"x">>, <<"()">>, <<"[", "]">>, FnLit, <<"c">>,
@@ -332,21 +333,24 @@ HostPrelude == <<"x", ":=", "1", ";", "y", ":=", "1.5", ";", "s", ":=", "\"s\"",
    "r", ":=", "struct", "{", "a", ":=", "1", ",", "b", ":=", "1.5", "}", ";",
    "f", ":=", "(", "p", ":", "int", ")", "->", "int", "{", "return", "p", "}", ";",
    "c", ":=", "mut", "1", ";", "it", ":=", "[", "1", ",", "2", "]", "~", ";",
-   "u", ":=", "1", ";", "m", ":=", "mut", "1", ";", "w", ":=", "\"s\"">>
+   "u", ":=", "1", ";", "m", ":=", "mut", "1", ";", "w", ":=", "\"s\"", ";",
+   "ca", ":=", "mut", "[", "int", "]", "[", "1", "]", ";", "nv", ":=", "[", "]">>
+FnHead == <<"g", ":=", "(", "x", ":", "int", ",", "y", ":", "float", ",", "s", ":", "string", ",",
+              "b", ":", "bool", ",", "a", ":", "[", "int", "]", ",", "t", ":", "(", "int", ",", "string", ")", ",",
+              "r", ":", "struct", "{", "a", ":", "int", ",", "b", ":", "float", "}", ",",
+              "f", ":", "(", "int", ")", "->", "int", ",", "c", ":", "mut", "int", ",",
+              "it", ":", "(", ")", "->", "(", "bool", ",", "int", ")", ",", "u", ":", "int", "|", "float", ",",
+              "m", ":", "mut", "int", "|", "mut", "float", ",", "w", ":", "any", ",",
+              "ca", ":", "mut", "[", "int", "]", ",", "nv", ":", "!", ")", "->", "any", "{">>
 Ctx(name, pre, post) == [name |-> name, pre |-> pre, post |-> post]
 Contexts == {
   Ctx("host", <<>>, <<>>),
   Ctx("top", <<"f", ":=", "(", "p", ":", "int", ")", "->", "int", "{", "return", "p", "}", ";",
                "c", ":=", "mut", "1", ";", "it", ":=", "[", "1", ",", "2", "]", "~", ";",
-               "m", ":=", "mut", "1.5", ";">>, <<>>),
-  Ctx("fn", <<"g", ":=", "(", "x", ":", "int", ",", "y", ":", "float", ",", "s", ":", "string", ",",
-              "b", ":", "bool", ",", "a", ":", "[", "int", "]", ",", "t", ":", "(", "int", ",", "string", ")", ",",
-              "r", ":", "struct", "{", "a", ":", "int", ",", "b", ":", "float", "}", ",",
-              "f", ":", "(", "int", ")", "->", "int", ",", "c", ":", "mut", "int", ",",
-              "it", ":", "(", ")", "->", "(", "bool", ",", "int", ")", ",", "u", ":", "int", "|", "float", ",",
-              "m", ":", "mut", "int", "|", "mut", "float", ",", "w", ":", "any", ")", "->", "any", "{",
-              "loop", "{">>,
-        <<";", "break", "}", "return", "()", "}">>)
+               "m", ":=", "mut", "1.5", ";", "ca", ":=", "mut", "[", "int", "]", "[", "1", "]", ";">>, <<>>),
+  Ctx("fn", FnHead \o <<"loop", "{">>, <<";", "break", "}", "return", "()", "}">>),
+  \* the case is bound to a name, so its static type is demanded
+  Ctx("use", FnHead \o <<"loop", "{", "n", ":=">>, <<";", "break", "}", "return", "()", "}">>)
 }
 TypeContext == Ctx("type", <<"h", ":=", "(", "p", ":">>, <<")", "{", "}">>)
 
